@@ -147,7 +147,7 @@ def lean_phase(spec, tier):
         return res
     cur = None
     ax = {}
-    for m in re.finditer(r"'([^']+)' (depends on axioms: \[([^\]]*)\]|does not depend on any axioms)", out.replace("\n", " ")):
+    for m in re.finditer(r"'(\S+)' (depends on axioms: \[([^\]]*)\]|does not depend on any axioms)", out.replace("\n", " ")):
         name = m.group(1)
         axs = [a.strip() for a in (m.group(3) or "").split(",") if a.strip()]
         ax[name] = axs
